@@ -262,6 +262,8 @@ def run(run):
     ER.noglobal(run, E, 'NOGLOBAL', reach)
     preload(run, fx)
     namepreload(run, fx)
+    from . import c10
+    c10.optentry(run, fx)        # gr_face_preloadAll only helps if the caller's options word is the one the face is built with
     unhinted(run, fx)
     nocallback(run, E, reach, cuts)
     c08rules.partition(run, fx, 'PARTITION')
